@@ -135,7 +135,7 @@ def run(prop: str, tier: str, seed: int) -> int:
         lo = LenObj(inst)
         days = (n - 1) * rounds
         plans = []
-        for _ in range(rng.randint(2, 4)):
+        for _ in range(rng.randint(2, 4) if n < 100 else 1):
             kind = rng.choice(["consistent", "byes", "circle", "circle-byes", "arbitrary", "away-runs"])
             if kind == "circle" or kind == "circle-byes":
                 rows = tp.circle_schedule(n, rounds, rng)
@@ -163,7 +163,7 @@ def run(prop: str, tier: str, seed: int) -> int:
                 rows = tp.random_plan(rng, n, days, kind)
             cells = [(d, t) for d in range(days) for t in range(n) if rows[d][t] != 0]
             if len(cells) > 40:
-                cells = rng.sample(cells, 40)
+                cells = rng.sample(cells, 40 if n < 100 else 2)   # (very large plans: TLC re-walks each replacement)
             plans.append(lo.record(rows, cells))
         cases.append({"id": f"rand-{k}", **lo.header(), "plans": plans})
         rep.family("random-plans-and-matrices", len(plans), len(plans))
